@@ -592,3 +592,133 @@ Example C17_composed_witness :
   /\ map (fun k => Sub.c_st (Sub.copies (c_sub w_final) k)) [0; 1]%nat = [Nacked; Acked]
   /\ Sub.thr (c_sub w_final) 0%nat = Sub.SDone 5%nat /\ Sub.next (c_sub w_final) = 2%nat.
 Proof. exact composed_witness. Qed.
+
+(** * Round "proofs 3": the outbox end to end, the known finding exactly, configuration, acceptor links *)
+From WM Require Import Relay.Outbox Relay.Config Relay.ConfigProofs Relay.AcceptorLinks Corr.C17.
+From WM Require Relay.JsonSanitize Value.Model Value.Codec Value.Json.
+
+(** ONE statement over the composed model: forwarder.Publisher (wrap) -> an at-least-once source that
+    redelivers a fresh copy after every Nack -> forwardMessage on a Router (C02's [handle]) -> the
+    destination.  For every message published to topic t through the Publisher, whatever the
+    destination does as long as one attempt accepts: the destination accepted it on t, intact, exactly
+    once (at least once, never twice); exactly one delivery of its envelope was acked on the outbox, the
+    last one; and in every delivery the Ack comes only after the destination publish returned nil *)
+Theorem C17_outbox_at_least_once :
+  forall (enc : envelope -> N) (dec : N -> option envelope) (san : N -> N) (atoi : N -> option Z) (itoa : Z -> N) (rk : N),
+  (forall s, san s = 0 <-> s = 0) ->
+  forall (dflt cfg t : N) (ms : list msg) (ft : N) (ps : list N) (ab : bool),
+  (forall m, In m ms -> codec_ok_on enc dec san (mk_env t m)) ->
+  fpub_publish enc dflt cfg t ms = Some (ft, ps) ->
+  ft = eff_topic dflt cfg
+  /\ Forall2 (fun m p => forall (u : N) (md : option meta) (beh : list attempt),
+       (exists cd, In (cd, PubAccept) beh) ->
+       let rs := fst (redeliver dec atoi itoa rk FreshCopy (CForwarder ab) ft (Msg u p md) beh) in
+       all_accepted rs = [(san t, [san_msg san m])]
+       /\ n_acked rs = 1%nat
+       /\ Forall (fun r => fst r <> Acked) (removelast rs)
+       /\ Forall (fun r => fst r = Acked -> accepted (snd r) = true /\ ack_after_accept (snd r) false = true) rs
+       /\ (san t = t -> wf_msg m -> san_fixes_msg san m -> all_accepted rs = [(t, [m])])) ms ps.
+Proof. exact outbox_at_least_once. Qed.
+
+(** the same on the real wire format (C16's JSON model), messages of valid UTF-8, [framing_ok] only *)
+Theorem C17_outbox_at_least_once_json :
+  forall (str_of : N -> list N) (id_of : list N -> N) (unframe : list N -> option (list (list N * list N)))
+         (atoi : N -> option Z) (itoa : Z -> N) (rk dflt cfg t : N) (ms : list msg) (ft : N) (ps : list N) (ab : bool),
+  (forall n, id_of (str_of n) = n) -> (forall s, str_of (id_of s) = s) ->
+  (forall m, In m ms -> json_ok str_of unframe (mk_env t m)) ->
+  fpub_publish (json_enc str_of id_of) dflt cfg t ms = Some (ft, ps) ->
+  ft = eff_topic dflt cfg
+  /\ Forall2 (fun m p => forall (u : N) (md : option meta) (beh : list attempt),
+       (exists cd, In (cd, PubAccept) beh) ->
+       let rs := fst (redeliver (json_dec str_of id_of unframe) atoi itoa rk FreshCopy (CForwarder ab) ft (Msg u p md) beh) in
+       all_accepted rs = [(t, [m])] /\ n_acked rs = 1%nat
+       /\ Forall (fun r => fst r <> Acked) (removelast rs)
+       /\ Forall (fun r => fst r = Acked -> accepted (snd r) = true /\ ack_after_accept (snd r) false = true) rs) ms ps.
+Proof. exact outbox_at_least_once_json. Qed.
+
+(** the known finding, exactly.  [sanitize] keeps every well-formed UTF-8 sequence and replaces every
+    other byte by U+FFFD (EF BF BD), one per byte.  For EVERY byte string the JSON model reads back the
+    sanitised string; a string is left alone iff it is valid UTF-8 *)
+Theorem C17_json_string_roundtrip_any : forall s : list N,
+  Value.Json.unescape (Value.Json.escape s) = Some (JsonSanitize.sanitize s)
+  /\ Value.Json.dec_str (Value.Json.enc_str s) = Some (JsonSanitize.sanitize s).
+Proof. exact (fun s => conj (JsonSanitize.unescape_escape_any s) (JsonSanitize.dec_str_enc_str_any s)). Qed.
+
+Theorem C17_json_sanitize_fixes_iff : forall s : list N,
+  JsonSanitize.sanitize s = s <-> Value.Codec.utf8_valid s = true.
+Proof. exact JsonSanitize.sanitize_fixes_iff. Qed.
+
+(** ... and for EVERY envelope whose payload is bytes (no UTF-8 or key premise): Unmarshal (Marshal e)
+    is e with destination, UUID, metadata keys and values sanitised, the payload untouched, and the
+    metadata rebuilt entry by entry — so keys that collide after sanitising keep ONE entry *)
+Theorem C17_json_envelope_law_any : forall (unframe : list N -> option (list (list N * list N))) (e : Value.Codec.envelope),
+  Value.Json.bytes_ok (Value.Model.pl_bytes (Value.Codec.e_payload e)) ->
+  unframe (Value.Json.frame_obj (Value.Json.env_members e)) = Some (Value.Json.env_members e) ->
+  (forall l, Value.Codec.e_meta e = Some l ->
+     unframe (Value.Json.frame_obj (Value.Json.meta_members l)) = Some (Value.Json.meta_members l)) ->
+  Value.Json.jdec_env unframe (Value.Json.frame_obj (Value.Json.env_members e)) = Some (JsonSanitize.san_envelope e).
+Proof. exact JsonSanitize.jdec_jenc_env_any. Qed.
+
+Theorem C17_json_envelope_altered_refuted : forall e : Value.Codec.envelope,
+  (Value.Codec.utf8_valid (Value.Codec.e_dest e) = false \/ Value.Codec.utf8_valid (Value.Codec.e_uuid e) = false) ->
+  JsonSanitize.san_envelope e <> e.
+Proof. exact JsonSanitize.san_envelope_changes. Qed.
+
+(** Forwarder / Publisher configuration (Config.setDefaults, Config.Validate, NewForwarder, PublisherConfig) *)
+Theorem C17_forwarder_config_defaults : forall (dflt : N) (c : fwd_cfg),
+  (fc_topic c <> 0 -> fc_topic (fwd_set_defaults dflt c) = fc_topic c)
+  /\ (fc_topic c = 0 -> fc_topic (fwd_set_defaults dflt c) = dflt)
+  /\ (fc_timeout c <> 0%Z -> fc_timeout (fwd_set_defaults dflt c) = fc_timeout c)
+  /\ (fc_timeout c = 0%Z -> fc_timeout (fwd_set_defaults dflt c) = default_close_timeout).
+Proof. exact fwd_defaults_keep. Qed.
+
+Theorem C17_forwarder_config_validate : forall (dflt : N) (c : fwd_cfg),
+  (fwd_validate c = false <-> fc_topic c = 0)
+  /\ (dflt <> 0 -> fwd_validate (fwd_set_defaults dflt c) = true)
+  /\ (dflt <> 0 -> fwd_set_defaults dflt (fwd_set_defaults dflt c) = fwd_set_defaults dflt c).
+Proof. exact (fun dflt c => conj (fwd_validate_raw c) (conj (fwd_defaults_valid dflt c) (fwd_defaults_idem dflt c))). Qed.
+
+(** NewForwarder never refuses a configuration, listens on a non-empty topic, and the Publisher
+    decorator configured with the same topic publishes exactly there *)
+Theorem C17_forwarder_new_never_refuses : forall (dflt t : N) (d : Z),
+  fst (forwarder_new dflt (FCfg t d)) = NewOk
+  /\ snd (forwarder_new dflt (FCfg t d)) = publisher_topic dflt t
+  /\ (dflt <> 0 -> snd (forwarder_new dflt (FCfg t d)) <> 0).
+Proof. exact forwarder_new_spec. Qed.
+
+(** every acceptor that judges implementation behaviour accepts what the model does *)
+Theorem C17_e2e_model_accepted : forall ab src em cd pb t m dcd at_ it rk orig_dec,
+  wf_msg m -> unwrap (fun _ => orig_dec) em = Some (t, m) ->
+  let r := run (fun _ => orig_dec) (lookupN at_) (lookupZ it) rk (CForwarder ab) (Inp src em cd pb) in
+  e2e_violates (RC (KForwarder ab) src em dcd pb orig_dec at_ it rk (Some (t, m)) (snd r) (fst r)) = false.
+Proof. exact e2e_model_accepted. Qed.
+
+Theorem C17_fanout_model_accepted : forall src m n closed, wf_msg m ->
+  fanout_violates (FO src m n closed (map (pair src) (fanout_deliver n closed m))
+                      (if closed then [] else [Unsettled])
+                      (fst (run (fun _ => None) (fun _ => None) (fun _ => 0) 0 CFanOut (Inp src m false (fanout_pb closed))))) = false.
+Proof. exact fanout_case_model_accepted. Qed.
+
+Theorem C17_chain_model_accepted : forall t m k, wf_msg m ->
+  chain_violates (CH t m k (map (pair t) (repeat (gochan_copy m) (S k))) Acked) = false.
+Proof. exact chain_model_accepted. Qed.
+
+Print Assumptions C17_outbox_at_least_once.
+Print Assumptions C17_outbox_at_least_once_json.
+Print Assumptions C17_json_string_roundtrip_any.
+Print Assumptions C17_json_sanitize_fixes_iff.
+Print Assumptions C17_json_envelope_law_any.
+Print Assumptions C17_json_envelope_altered_refuted.
+Print Assumptions C17_forwarder_config_defaults.
+Print Assumptions C17_forwarder_config_validate.
+Print Assumptions C17_forwarder_new_never_refuses.
+Print Assumptions C17_e2e_model_accepted.
+Print Assumptions C17_fanout_model_accepted.
+Print Assumptions C17_chain_model_accepted.
+
+(** the witness of the known finding, computed: "v\xff" is read back as "v" + EF BF BD *)
+Example C17_witness_sanitize :
+  JsonSanitize.sanitize [118; 255] = [118; 239; 191; 189]
+  /\ Value.Json.dec_str (Value.Json.enc_str [118; 255]) = Some [118; 239; 191; 189]
+  /\ JsonSanitize.sanitize [107; 254] = JsonSanitize.sanitize [107; 253].
+Proof. repeat split; vm_compute; reflexivity. Qed.
